@@ -198,23 +198,32 @@ func (msg Message) Generate(w io.Writer, settings GenerateSettings) {
 }
 
 func writeMessageFieldUnmarshaller(name string, typ FieldType, w *iohelp.ErrorWriter, settings GenerateSettings, depth int) {
+	// name is "bbp.Field" for the field itself and "(bbp.Field)[i]..." for what is nested in it: the
+	// parenthesised field stays at the front, where writeLineWithTabs puts the dereference, and a
+	// container inside a container gets a loop variable of its own.
+	iName := "i"
+	elem := func(idx string) string { return "(" + name + ")[" + idx + "]" }
+	if name[0] == '(' {
+		iName = depthName("i", depth)
+		elem = func(idx string) string { return name + "[" + idx + "]" }
+	}
 	if typ.Array != nil {
 		writeLineWithTabs(w, "%RECV = make([]%TYPE, iohelp.ReadUint32(r))", depth, name, typ.Array.goString(settings))
 		if typ.Array.Simple == typeByte {
 			writeLineWithTabs(w, "r.Read(%RECV)", depth, name)
 		} else {
-			writeLineWithTabs(w, "for i := range %RECV {", depth, name)
-			writeMessageFieldUnmarshaller("("+name+")[i]", *typ.Array, w, settings, depth+1)
+			writeLineWithTabs(w, "for "+iName+" := range %RECV {", depth, name)
+			writeMessageFieldUnmarshaller(elem(iName), *typ.Array, w, settings, depth+1)
 			writeLineWithTabs(w, "}", depth)
 		}
 	} else if typ.Map != nil {
 		lnName := depthName("ln", depth)
 		writeLineWithTabs(w, lnName+" := iohelp.ReadUint32(r)", depth)
 		writeLineWithTabs(w, "%RECV = make("+typ.Map.goString(settings)+")", depth, name)
-		writeLineWithTabs(w, "for i := uint32(0); i < "+lnName+"; i++ {", depth, name)
+		writeLineWithTabs(w, "for "+iName+" := uint32(0); "+iName+" < "+lnName+"; "+iName+"++ {", depth, name)
 		ln := getLineWithTabs(settings.typeUnmarshallers[typ.Map.Key], depth+1, "&"+depthName("k", depth))
 		w.SafeWrite([]byte(strings.Replace(ln, "=", ":=", 1)))
-		writeMessageFieldUnmarshaller("("+name+")["+depthName("k", depth)+"]", typ.Map.Value, w, settings, depth+1)
+		writeMessageFieldUnmarshaller(elem(depthName("k", depth)), typ.Map.Value, w, settings, depth+1)
 		writeLineWithTabs(w, "}", depth)
 	} else {
 		simpleTyp := typ.Simple
